@@ -1,6 +1,7 @@
 package main
 
 import (
+	"encoding/json"
 	"fmt"
 	"strconv"
 )
@@ -224,6 +225,16 @@ func genC17(tier, out string, sum *Summary) {
 			}
 			c.same("current-explicit", p, pipe(cur(), p), doc)
 		}
+	}
+	// the same identities with integer literals at the limits of narrower representations
+	edoc := map[string]any{"a": []any{json.Number("1"), json.Number("2"), json.Number("3")}, "rows": []any{map[string]any{"cells": []any{"x", "y"}}, map[string]any{"cells": []any{"z"}}}}
+	for _, v := range edgeIdx {
+		c.same("dot-is-pipe", idx(fld("a"), v), pipe(fld("a"), idx(cur(), v)), edoc)
+		c.same("proj-then-selectors", proj(PList, fld("rows"), idx(sub(cur(), fld("cells")), v)), pipe(proj(PList, fld("rows"), sub(cur(), fld("cells"))), proj(PList, cur(), idx(cur(), v))), edoc)
+		c.same("map", proj(PList, fld("rows"), idx(sub(cur(), fld("cells")), v)), proj(PList, call("map", ar(idx(sub(cur(), fld("cells")), v)), av(fld("rows"))), cur()), edoc)
+		c.same("current-explicit", idx(cur(), v), idx(cur(), v), []any{"p", "q"})
+		w := v
+		c.same("unprojected-pipe", slc(fld("a"), &w, nil, nil, cur()), pipe(slc(fld("a"), &w, nil, nil, cur()), proj(PList, cur(), cur())), edoc)
 	}
 	c.sh.Flush()
 	sum.Cases = c.sh.total
